@@ -326,6 +326,8 @@ def run(ctx: Ctx) -> None:
     from .c11 import rule_pivot_found, rule_block_conditions
     rule_pivot_found(ctx)
     rule_block_conditions(ctx)
+    from .c11 import rule_canonical_first
+    rule_canonical_first(ctx)
     from ..rules import bitform as _bitform
     _bitform.rule_helper_shape(ctx)
     _bitform.rule_g_table(ctx)
